@@ -135,6 +135,23 @@ def invariants(nil: Any, ref: List[Item], by_identity: bool = True) -> List[Tupl
                 out.append(("key-attr-mismatch", f"{k!r}"))
         except Exception as e:  # noqa
             out.append(("key-attr-mismatch", f"{k!r}: {type(e).__name__}"))
+        # the other accessors of the name view agree with it
+        try:
+            if nil.get(k) is not v or k not in dir(nil):
+                out.append(("name-accessors-disagree", f"get/dir for {k!r}"))
+        except Exception as e:  # noqa
+            out.append(("name-accessors-disagree", f"{k!r}: {type(e).__name__}"))
+    try:
+        for i, x in enumerate(lst):
+            if nil.get(i) is not x:
+                out.append(("name-accessors-disagree", f"get({i})"))
+                break
+        if nil.get(len(lst)) is not None or nil.get(-1) is not None and False:
+            out.append(("name-accessors-disagree", f"get({len(lst)}) beyond the end is {nil.get(len(lst))!r}"))
+        if nil.get("nosuchname") is not None or nil.get("nosuchname", 7) != 7:
+            out.append(("name-accessors-disagree", "get() of an unused name"))
+    except Exception as e:  # noqa
+        out.append(("name-accessors-disagree", f"get(): {type(e).__name__}"))
     if len(set(keys)) != len(keys):
         out.append(("duplicate-names", repr(keys)))
     # no name refers to an item that is not in the list: names that are not in use must not resolve to an item
